@@ -516,6 +516,36 @@ def const_eval(node, env=None, owners=()):
         if type(v) is not int:
             raise NotConstant('unary')
         return -v if isinstance(node.op, ast.USub) else ~v if isinstance(node.op, ast.Invert) else v
+    if isinstance(node, ast.JoinedStr):
+        out = ''
+        for v in node.values:
+            if isinstance(v, ast.Constant):
+                out += str(v.value)
+            elif isinstance(v, ast.FormattedValue) and v.conversion in (-1, 115) and v.format_spec is None:
+                x = const_eval(v.value, env, owners)
+                if not isinstance(x, (str, int)) or isinstance(x, bool):
+                    raise NotConstant('f-string value')
+                out += str(x)
+            else:
+                raise NotConstant('f-string')
+        return out
+    if isinstance(node, ast.BinOp) and isinstance(node.op, ast.Mod):
+        a, b = const_eval(node.left, env, owners), const_eval(node.right, env, owners)
+        if isinstance(a, (str, bytes)):
+            try:
+                return a % b
+            except Exception:
+                raise NotConstant('%')
+    if isinstance(node, ast.Call) and isinstance(node.func, ast.Attribute) and node.func.attr == 'format' and \
+            all(k.arg is not None for k in node.keywords):
+        recv = const_eval(node.func.value, env, owners)
+        if isinstance(recv, str):
+            try:
+                return recv.format(*[const_eval(a, env, owners) for a in node.args], **{k.arg: const_eval(k.value, env, owners) for k in node.keywords})
+            except NotConstant:
+                raise
+            except Exception:
+                raise NotConstant('format')
     if isinstance(node, ast.BinOp) and type(node.op) in _BINOPS:
         a, b = const_eval(node.left, env, owners), const_eval(node.right, env, owners)
         try:
